@@ -53,5 +53,6 @@ def known_match(kf, l, fails):
     """F-C07: a borrowed wrapped child was obtained in this history and the only failure is the context count"""
     ops = [o.split() for o in l.split("|", 1)[1].split(";")]
     uses = any(o and o[0] == "3" for o in ops)
-    only_ctx = all(("context_count_is" in f) or f == "model-mismatch" for f in fails)
+    # the parked clones also keep the context allocation itself alive: the same finding seen by the allocator
+    only_ctx = all(("context_count_is" in f) or f == "model-mismatch" or f.startswith("leak_b") for f in fails) and any("context_count_is" in f for f in fails + ["context_count_is" if fails == ["model-mismatch"] else ""])
     return kf.get("id") == "F-C07" and uses and only_ctx and bool(fails)
